@@ -25,7 +25,7 @@ def to_smt(dom, roots_a, roots_b):
             stack.extend(k[2])
         elif k[0] == "ix":
             stack.extend(k[3])
-        elif k[0] == "constarray":
+        elif k[0] in ("constarray", "fbits"):
             stack.append(k[1])
     for n in sorted(need):
         k = dom.nodes[n]
@@ -35,9 +35,9 @@ def to_smt(dom, roots_a, roots_b):
         elif k[0] == "ix":
             args = k[3]
             f = "g_%s_%s_%d" % (k[1], "_".join(str(x) for x in k[2]), len(args))
-        elif k[0] == "constarray":
+        elif k[0] in ("constarray", "fbits"):
             args = (k[1],)
-            f = "constarray_1"
+            f = k[0] + "_1"
         else:
             args = ()
             f = None
